@@ -4,6 +4,12 @@ import json, os, subprocess
 ROOT = os.path.dirname(os.path.abspath(__file__))
 ALL = ["C%02d" % i for i in range(1, 21)]
 CHECKS = {
+ "C01": dict(engine="tlc+vh-replay", technique="TLA+ transcription of the message classifier (Wire.tla) enumerated exhaustively by TLC over a member-class alphabet; every case concretised and replayed over HTTP and WebSocket into the real server",
+             text="Wire.tla transcribes the three-stage classification (call / notification / id recovery) and the reply owed per transport; TLC checks the property's own sentences as meta-invariants over all 8408 abstract texts and emits the expected reply of each; the harness concretises every case (seeded values, member order, whitespace, truncation) and compares reply count, well-formedness, id identity, code / handler result, handler log, HTTP=WS agreement and connection liveness on the real server.",
+             note="abstract classes exhaustive; concrete bytes seeded samples; duplicate member names and >127 bytes of leading whitespace outside the alphabet; in-process rigs (tower service, duplex WebSocket)", ref="5 (C01)"),
+ "C02": dict(engine="tlc+vh-replay", technique="TLA+ BatchReply operator (Wire.tla) enumerated by TLC over all entry-class sequences x batch configs; replayed on both transports with all frames to EOF collected and per-entry differential against single calls",
+             text="TLC enumerates every batch of 0..3 (thorough 4) entries over 11 entry classes under 4 batch configurations with the expected reply shape; the harness sends each on HTTP and on its own WebSocket connection, collects every frame up to EOF after a graceful per-connection stop, matches array elements as a multiset, compares each call entry with its stand-alone reply and the handler log with the executed entries.",
+             note="element order free; array-form (positional) entries outside the alphabet; F2 recorded as known finding", ref="5 (C02)"),
  "C13": dict(engine="tlc+vh-replay", technique="TLA+ spec Registry.tla; TLC state graph, every transition replayed on real RpcModule values with full state projection after each call",
              text="Registry.tla models a module as a name->handler-tag map with register/alias/merge/remove/clone; TLC checks atomicity of failed calls, exact additions and clone isolation on the model and emits one case per transition of the bounded state graph; each is replayed on real RpcModules comparing Result class, method_names() and the dispatch outcome of every name on every module value after every call.",
              note="names {a,b,c}, 3 module slots, call sequences up to MaxDepth+1; sync/async/blocking rotated by the harness", ref="5 (C13)"),
